@@ -117,6 +117,18 @@ class Gen:
         else:
             s = str(r.randint(0, 10 ** r.randint(1, 19)))
             cls = "int"
+        if cls in ("boundary", "u64", "int") and r.random() < 0.35:
+            # long integer mantissas (18..21 digits, around 2^63 and 2^64) continued by a fraction and/or an exponent with
+            # either letter: the integer fast path has to hand over to the real path at exactly the right digit
+            if len(s) < 18 and r.random() < 0.7:
+                s = r.choice(["1", "9", "18", "99", "10"]) + "".join(r.choice("0123456789") for _ in range(r.randint(17, 19)))
+            tail = ""
+            if r.random() < 0.5:
+                tail += "." + "".join(r.choice("0123456789") for _ in range(r.randint(1, 4)))
+            if r.random() < 0.7 or not tail:
+                tail += r.choice("eE") + r.choice(["", "+", "-"]) + str(r.randint(0, 30))
+            s += tail
+            cls = "long-mantissa-real"
         if r.random() < 0.3:
             s = "-" + s
             cls += "-neg"
@@ -156,6 +168,15 @@ class Gen:
             if keys and r.random() < 0.2:
                 k = r.choice(keys)
                 self.dup = True
+            elif r.random() < 0.04:
+                # names with equal hashes where the stored name is a prefix of the later one (see harness/jsongen.hpp)
+                a, b = r.choice([("s", "sh"), ("t", "ti"), ("l", "la"), ("X", "X\\u0000\\u0000"), ("M", "M\\u0000\\u0000\\u0000"), ("", "\\u0000")])
+                if a in keys or b in keys:
+                    self.dup = True
+                keys.append(a)
+                items.append(self.ws() + '"' + a + '"' + self.ws() + ":" + self.ws() + self.value(depth + 1, maxd) + self.ws())
+                k = b
+                keys.append(k)
             else:
                 k = self.string_body()
                 keys.append(k)
